@@ -22,7 +22,8 @@ SCHEMES = ["http", "https", "ws", "wss"]
 DEFAULT = {"http": 80, "https": 443, "ws": 80, "wss": 443}
 SERVERS = [("h", "default"), ("h", 8080), ("h", 80), ("h", 443), ("10.0.0.1", 80), ("::1", 8000), ("h", 65535), ("h", 1),
            ("::ffff:192.0.2.1", 8000), ("64:ff9b::198.51.100.7", "default"), ("2001:db8:0:0:0:0:0:1", 8000), ("FE80::A", 8000)]  # IPv6 with a dotted IPv4 tail, in full form, in capitals
-HOSTS = [None, "x.org", "x.org:81", "[::1]:81", "x.org:65535", "[::1]:65535", "API.Example.ORG:8443", "[FE80::A]:81", "example.org.", "my_service:8000", "api_v2.internal.:81"]
+HOSTS = [None, "x.org", "x.org:81", "[::1]:81", "x.org:65535", "[::1]:65535", "API.Example.ORG:8443", "[FE80::A]:81", "example.org.", "my_service:8000", "api_v2.internal.:81",
+         ""]  # (a Host field that is present and empty: what a client sends when its request target has no authority)
 ROOTS = ["", "/r", "/ré"]
 PATHS = ["/", "/a b", "/é", "/a?b", "/a#b", "", "/a/b.c", "/r/users", "/r", "/ré/x", "//a/b", "//", "///a", "/a//b/"]
 QUERIES = [b"", b"a=1", b"a=%20&b", "name=café&q=日本".encode("utf-8"), b"l=\xe9"]  # the last two: raw UTF-8 and a raw Latin-1 byte, unescaped
@@ -79,7 +80,7 @@ def reconstruct(r, scheme, server, host, root, path, query):
         if ":" in want_host or want_port is not None:
             r.count("distinct_nontrivial")
         try:
-            got = {"scheme": u.scheme, "hostname": u.hostname, "port": u.port, "path": u.path, "query": u.query, "fragment": u.fragment}
+            got = {"scheme": u.scheme, "hostname": u.hostname if host != "" else (u.hostname or ""), "port": u.port, "path": u.path, "query": u.query, "fragment": u.fragment}
         except Exception as e:  # noqa
             r.violation(f"reconstruct:component-exception:{type(e).__name__}", dict(w, iface=iface), f"{iface} URL {str(u)!r} from {w}: reading components raised {e!r:.100}")
             continue
@@ -129,7 +130,7 @@ def reconstruct_noserver(r):
             continue
         if host is not None:
             hn, hp = split_host(host)
-            want = {"scheme": scheme, "hostname": hn.lower(), "port": hp, "path": root + path, "query": query.decode()}
+            want = {"scheme": scheme, "hostname": hn.lower() or None, "port": hp, "path": root + path, "query": query.decode()}  # (an empty authority has no host name)
         elif shape in ("absent", "none"):
             want = {"scheme": "", "hostname": None, "port": None, "path": root + path, "query": query.decode()}
         elif shape == "name-none-port":
@@ -188,6 +189,12 @@ for hostpart, hn in (("h.org", "h.org"), ("10.0.0.1", "10.0.0.1"), ("[::1]", "::
                 continue
             BASES.append({"hostpart": hostpart, "hostname": hn, "username": user, "password": pw, "port": port})
 BASES.append({"hostpart": "h.org", "hostname": "h.org", "username": "al", "password": None, "port": 0})  # port 0 is a number, not "no port"
+# user names and passwords that carry delimiters in their percent-encoded spelling (a domain account, an e-mail address): the
+# class hands them out and writes them back as they are spelt
+BASES.append({"hostpart": "h.org", "hostname": "h.org", "username": "dom%3Aalice", "password": "s3c", "port": 8000})
+BASES.append({"hostpart": "10.0.0.1", "hostname": "10.0.0.1", "username": "corp%2Falice", "password": "p%40s%2Fs", "port": None})
+BASES.append({"hostpart": "[::1]", "hostname": "::1", "username": "alice%40example.com", "password": None, "port": 8000})
+BASES.append({"hostpart": "h.org", "hostname": "h.org", "username": "a%3Fb%23c", "password": "%25", "port": None})
 
 NEW = {
     "scheme": ["https"],
